@@ -21,6 +21,7 @@ import JumanjiModel.Env.Connector.SolvableLemmas
 import JumanjiModel.Env.Connector.EpisodeLemmas
 import JumanjiModel.Env.Connector.TraceLemmas
 import JumanjiModel.Env.Connector.WalkSolvedLemmas
+import JumanjiModel.Env.Connector.SpecValid
 open Jm Jx Connector
 
 namespace Props.C04
@@ -225,6 +226,127 @@ example : (step ⟨3, 2, 1, 1, -3/100⟩ ⟨[[2, 0, 3], [0, 0, 0], [5, 0, 6]], 0
     [⟨0, (0, 0), (0, 2), (0, 0)⟩, ⟨1, (2, 0), (2, 2), (2, 0)⟩]⟩ [2, 0]).2.obs.stepCount = 1 := by decide
 example : Consistent 3 2 ⟨[[2, 0, 3], [0, 0, 0], [5, 0, 6]], 0,
     [⟨0, (0, 0), (0, 2), (0, 0)⟩, ⟨1, (2, 0), (2, 2), (2, 0)⟩]⟩ := by decide
+/-! #### (wave 4) membership in the DECLARED specs: structure, shapes, dtypes and bounds -/
+open Sp PzS PkS MaS
+
+/-- the model's `obsSpec` / `actionSpec` / `rewardSpec` / `discountSpec` ARE the specs generated from the real spec objects
+(Gen/Specs.lean) for the two catalogue configurations `Connector(RandomWalkGenerator(6, 3), time_limit=9)` and
+`Connector(UniformRandomGenerator(5, 2), time_limit=5)`: fields `grid`, `action_mask`, `step_count`; shapes `(n, n)`, `(k, 5)`,
+`()`; dtypes int32, bool, int32; bounds `[0, 3k + 1]`, `[0, 1]`, `[0, time_limit]` -/
+theorem connector_obsSpec_generated :
+    prefixed "observation_spec." (obsSpec ⟨6, 3, 9, 1, -3/100⟩) = declared "connector-6x3" "observation_spec." ∧
+    prefixed "observation_spec." (obsSpec ⟨5, 2, 5, 1, -3/100⟩) = declared "connector-uniform" "observation_spec." ∧
+    [("action_spec", actionSpec ⟨6, 3, 9, 1, -3/100⟩)] = declared "connector-6x3" "action_spec" ∧
+    [("action_spec", actionSpec ⟨5, 2, 5, 1, -3/100⟩)] = declared "connector-uniform" "action_spec" ∧
+    [("reward_spec", rewardSpec ⟨6, 3, 9, 1, -3/100⟩)] = declared "connector-6x3" "reward_spec" ∧
+    [("reward_spec", rewardSpec ⟨5, 2, 5, 1, -3/100⟩)] = declared "connector-uniform" "reward_spec" ∧
+    [("discount_spec", discountSpec ⟨6, 3, 9, 1, -3/100⟩)] = declared "connector-6x3" "discount_spec" ∧
+    [("discount_spec", discountSpec ⟨5, 2, 5, 1, -3/100⟩)] = declared "connector-uniform" "discount_spec" := by
+  refine ⟨by decide, by decide, by decide, by decide, by decide, by decide, by decide, by decide⟩
+
+/-- the invariant behind the membership theorems (grid `n × n`, cells in `0 … 3k`, `k` agents, counter ≥ 0) is established by
+BOTH generators for EVERY draw — no hypothesis on the drawn cells, so also for a boxed-in random walk (known finding CN1),
+whose board is not fresh — and preserved by EVERY step: any joint action with one entry per agent, whatever the entries (in
+the action space or not, legal or not), MID or LAST.  Every `Consistent` state satisfies it. -/
+theorem connector_specInv_invariant (cfg : Cfg) (hk : 0 < cfg.k) :
+    (∀ cells, SpecInv cfg (uniformGenerate cfg.n cfg.k cells)) ∧
+    (∀ init tape, SpecInv cfg (walkGenerate cfg.n cfg.k init tape).2) ∧
+    (∀ s, Consistent cfg.n cfg.k s → SpecInv cfg s) ∧
+    (∀ (s : State) (acts : List Int), SpecInv cfg s → acts.length = cfg.k → SpecInv cfg (step cfg s acts).1) :=
+  ⟨Connector.uniform_specInv cfg, Connector.walk_specInv cfg, Connector.specInv_of_consistent cfg,
+   fun s acts h ha => Connector.step_specInv cfg hk s h acts ha⟩
+
+/-- the `reset` observation is accepted by `observation_spec.validate` for EVERY draw of either generator (all sizes `n ≥ 1`,
+`k ≥ 1`, `time_limit ≥ 0`) -/
+theorem connector_reset_obs_valid (cfg : Cfg) (hn : 0 < cfg.n) (hk : 0 < cfg.k) (hT : 0 ≤ cfg.timeLimit) :
+    (∀ cells, (obsSpec cfg).valid (toNValue (resetTs cfg (uniformGenerate cfg.n cfg.k cells)).obs) = true) ∧
+    (∀ init tape, (obsSpec cfg).valid (toNValue (resetTs cfg (walkGenerate cfg.n cfg.k init tape).2).obs) = true) :=
+  ⟨fun cells => Connector.reset_obs_valid cfg hn hk hT _ (Connector.uniform_specInv cfg cells) rfl,
+   fun init tape => Connector.reset_obs_valid cfg hn hk hT _ (Connector.walk_specInv cfg init tape) rfl⟩
+
+/-- … and on any state satisfying the invariant with counter 0 -/
+theorem connector_reset_obs_valid_of_inv (cfg : Cfg) (hn : 0 < cfg.n) (hk : 0 < cfg.k) (hT : 0 ≤ cfg.timeLimit) (s : State)
+    (h : SpecInv cfg s) (h0 : s.stepCount = 0) : (obsSpec cfg).valid (toNValue (resetTs cfg s).obs) = true :=
+  Connector.reset_obs_valid cfg hn hk hT s h h0
+
+/-- the observation of EVERY `step` — any joint action with one entry per agent (legal or not, in the action space or not),
+MID or LAST — from every state with the invariant whose counter has not reached the limit -/
+theorem connector_step_obs_valid (cfg : Cfg) (hn : 0 < cfg.n) (hk : 0 < cfg.k) (s : State) (h : SpecInv cfg s)
+    (hlim : s.stepCount < cfg.timeLimit) (acts : List Int) (ha : acts.length = cfg.k) :
+    (obsSpec cfg).valid (toNValue (step cfg s acts).2.obs) = true :=
+  Connector.step_obs_valid cfg hn hk s h hlim acts ha
+
+example : SpecInv ⟨3, 2, 6, 1, -3/100⟩ ⟨[[2, 0, 3], [0, 0, 0], [5, 0, 6]], 0,
+    [⟨0, (0, 0), (0, 2), (0, 0)⟩, ⟨1, (2, 0), (2, 2), (2, 0)⟩]⟩ := by decide
+
+/-- WHOLE EPISODES: along the rollout (`Ep.rollout` = the L1 step iterated) of ANY joint actions from the reset state of ANY
+draw of either generator (more generally: any state with the invariant and counter 0), every observation emitted by one of the
+first `time_limit` steps is a member of the spec; the episode is over by then (`connector_episode_ends_by_limit`: step
+`time_limit` is LAST), so this covers every observation of every episode up to and including the terminal one -/
+theorem connector_rollout_obs_valid (cfg : Cfg) (hn : 0 < cfg.n) (hk : 0 < cfg.k) (s0 : State) (h : SpecInv cfg s0)
+    (h0 : s0.stepCount = 0) (as : List (List Int)) (has : ∀ a ∈ as, a.length = cfg.k) (j : Nat)
+    (hj : (j : Int) < cfg.timeLimit) (e : State × TimeStep Obs) (he : (Ep.rollout (step cfg) s0 as)[j]? = some e) :
+    (obsSpec cfg).valid (toNValue e.2.obs) = true :=
+  Connector.rollout_obs_valid cfg hn hk s0 h h0 as has j hj e he
+
+theorem connector_obs_valid_along (cfg : Cfg) (hn : 0 < cfg.n) (hk : 0 < cfg.k) (init : List (Int × Int))
+    (tape : List (List Int)) (cells : List Nat) (as : List (List Int)) (has : ∀ a ∈ as, a.length = cfg.k) (j : Nat)
+    (hj : (j : Int) < cfg.timeLimit) (e : State × TimeStep Obs) :
+    ((Ep.rollout (step cfg) (walkGenerate cfg.n cfg.k init tape).2 as)[j]? = some e →
+      (obsSpec cfg).valid (toNValue e.2.obs) = true) ∧
+    ((Ep.rollout (step cfg) (uniformGenerate cfg.n cfg.k cells) as)[j]? = some e →
+      (obsSpec cfg).valid (toNValue e.2.obs) = true) :=
+  ⟨Connector.rollout_obs_valid cfg hn hk _ (Connector.walk_specInv cfg init tape) rfl as has j hj e,
+   Connector.rollout_obs_valid cfg hn hk _ (Connector.uniform_specInv cfg cells) rfl as has j hj e⟩
+
+/-- what membership means (so the theorems above are not hollow): `validate` accepts an observation ONLY IF the grid is
+`(n, n)` with `n²` cells in `0 … 3k + 1`, the mask `(k, 5)` and the counter in `[0, time_limit]` -/
+theorem connector_obs_valid_only (cfg : Cfg) (o : Obs) (h : (obsSpec cfg).valid (toNValue o) = true) :
+    shape2 o.grid = [cfg.n, cfg.n] ∧ (List.flatten o.grid).length = cfg.n * cfg.n ∧
+    (∀ v ∈ List.flatten o.grid, 0 ≤ v ∧ v ≤ 3 * (cfg.k : Int) + 1) ∧
+    shape2 o.actionMask = [cfg.k, 5] ∧ o.actionMask.flatten.length = cfg.k * 5 ∧
+    0 ≤ o.stepCount ∧ o.stepCount ≤ cfg.timeLimit := Connector.obs_valid_only cfg o h
+
+/-- positive: the reset observation of a board; negative: a counter beyond the limit, a cell value `3k + 2`, the observation of
+a board of another size, a mask with a missing row -/
+example :
+    let cfg : Cfg := ⟨3, 2, 6, 1, -3/100⟩
+    let s : State := ⟨[[2, 0, 3], [0, 0, 0], [5, 0, 6]], 0, [⟨0, (0, 0), (0, 2), (0, 0)⟩, ⟨1, (2, 0), (2, 2), (2, 0)⟩]⟩
+    (obsSpec cfg).valid (toNValue (resetTs cfg s).obs) = true ∧
+    (obsSpec cfg).valid (toNValue { (resetTs cfg s).obs with stepCount := 7 }) = false ∧
+    (obsSpec cfg).valid (toNValue { (resetTs cfg s).obs with grid := [[2, 0, 3], [0, 8, 0], [5, 0, 6]] }) = false ∧
+    (obsSpec ⟨4, 2, 6, 1, -3/100⟩).valid (toNValue (resetTs cfg s).obs) = false ∧
+    (obsSpec cfg).valid (toNValue { (resetTs cfg s).obs with actionMask := [[true, true, true, true, true]] }) = false := by
+  decide +kernel
+
+/-- reward and discount of EVERY step from a state with `k` agents (any joint action of length `k`) and of `reset` are accepted
+by `reward_spec` (Array((k,), float)) and `discount_spec` (BoundedArray((k,), float, 0, 1)) -/
+theorem connector_reward_discount_valid (cfg : Cfg) (s : State) (hl : s.agents.length = cfg.k) (acts : List Int)
+    (ha : acts.length = cfg.k) (s0 : State) :
+    (rewardSpec cfg).valid (vecArr (step cfg s acts).2.reward) = true ∧
+    (discountSpec cfg).valid (vecArr (step cfg s acts).2.discount) = true ∧
+    (rewardSpec cfg).valid (vecArr (resetTs cfg s0).reward) = true ∧
+    (discountSpec cfg).valid (vecArr (resetTs cfg s0).discount) = true :=
+  ⟨(Connector.step_reward_discount_valid cfg s hl acts ha).1, (Connector.step_reward_discount_valid cfg s hl acts ha).2,
+   (Connector.reset_reward_discount_valid cfg s0).1, (Connector.reset_reward_discount_valid cfg s0).2⟩
+
+/-- `action_spec.generate_value()` = the all-no-op joint action: the action spec is well-formed, the generated value is a
+member, and `step` answers it from every state with the invariant (counter below the limit) with a non-FIRST timestep whose
+observation, reward and discount are members of their specs -/
+theorem connector_accepts_generate_value (cfg : Cfg) (hn : 0 < cfg.n) (hk : 0 < cfg.k) (s : State) (h : SpecInv cfg s)
+    (hlim : s.stepCount < cfg.timeLimit) :
+    (actionSpec cfg).WF = true ∧ (actionSpec cfg).valid (actionSpec cfg).generate = true ∧
+    (actionSpec cfg).generate = actionArr (List.replicate cfg.k 0) ∧
+    (obsSpec cfg).valid (toNValue (step cfg s (List.replicate cfg.k 0)).2.obs) = true ∧
+    (rewardSpec cfg).valid (vecArr (step cfg s (List.replicate cfg.k 0)).2.reward) = true ∧
+    (discountSpec cfg).valid (vecArr (step cfg s (List.replicate cfg.k 0)).2.discount) = true ∧
+    (step cfg s (List.replicate cfg.k 0)).2.stepType ≠ .first :=
+  Connector.accepts_generate_value cfg hn hk s h hlim
+
+/-- membership in `action_spec` is "one entry per agent, each one of 0 … 4" -/
+theorem connector_action_spec_iff (cfg : Cfg) (as : List Int) :
+    (actionSpec cfg).valid (actionArr as) = true ↔ as.length = cfg.k ∧ ∀ a ∈ as, 0 ≤ a ∧ a < 5 :=
+  actionSpecN_valid_iff cfg.k 5 as
 end Props.C01
 
 /-! ## Theorems from `Consistent` (proof completion) -/
